@@ -19,6 +19,8 @@ import tempfile
 import time
 import traceback
 
+from . import refschema  # noqa: E402
+
 VERIF = os.path.dirname(os.path.dirname(os.path.abspath(__file__)))
 PY = "/venv/bin/python"
 MAX_WITNESS = 12
@@ -93,6 +95,8 @@ def run_cases(mod, ctx, indices, deadline=None):
             ctx.count("cases_skipped_deadline")
             continue
         ctx.case = {"seed": ctx.seed, "index": i, "tier": ctx.tier}
+        if refschema.maybe_reset():
+            ctx.count("reference_term_table_resets")
         rnd = case_rng(mod.ID, ctx.seed, i)
         try:
             mod.case(ctx, rnd, i)
@@ -184,8 +188,9 @@ def write_evidence(mod, tier, seed, merged, wall, nviol_unlisted, known_seen, ve
         "wall_s": round(wall, 2),
         "violations": nviol_unlisted,
     }
-    os.makedirs(os.path.join(VERIF, "evidence"), exist_ok=True)
-    path = os.path.join(VERIF, "evidence", mod.ID + ".json")
+    evdir = os.environ.get("VERIF_EVIDENCE_DIR") or os.path.join(VERIF, "evidence")
+    os.makedirs(evdir, exist_ok=True)
+    path = os.path.join(evdir, mod.ID + ".json")
     tmp = path + ".tmp"
     with open(tmp, "w") as f:
         json.dump(ev, f, indent=1, default=str, ensure_ascii=True)
@@ -195,7 +200,7 @@ def write_evidence(mod, tier, seed, merged, wall, nviol_unlisted, known_seen, ve
 
 
 def write_replay(v):
-    d = os.path.join(VERIF, "replays")
+    d = os.path.join(os.environ["VERIF_EVIDENCE_DIR"], "replays") if os.environ.get("VERIF_EVIDENCE_DIR") else os.path.join(VERIF, "replays")
     os.makedirs(d, exist_ok=True)
     h = hashlib.sha1(json.dumps(v, sort_keys=True, default=str).encode()).hexdigest()[:12]
     path = os.path.join(d, "%s-%s.json" % (v["property"], h))
